@@ -244,3 +244,12 @@ Proof.
   - intros Ho1 Ho2 HL1. subst L. unfold fmt_output_shape.
     destruct o as [|[|[|x]] [|y o']]; try congruence; reflexivity.
 Qed.
+
+(* two valid loop positions never share a flat position: no two samples collide in the batch buffers *)
+Lemma ravel_injective : forall (L : shape) (m1 m2 : list nat),
+  Forall2 (fun i d => i < d) m1 L -> Forall2 (fun i d => i < d) m2 L ->
+  ravel L m1 = ravel L m2 -> m1 = m2.
+Proof.
+  intros L m1 m2 H1 H2 He.
+  rewrite <- (proj2 (ravel_unravel L m1 H1)), <- (proj2 (ravel_unravel L m2 H2)), He. reflexivity.
+Qed.
